@@ -100,6 +100,7 @@ type p1case struct {
 	Chain    string // B | C
 	TSS      bool
 	Packet   string // recv only: "" (an ordinary transfer) | "reverts" | "unknown-destination"
+	TSSAcct  string // the configured TSS account: "u2" (as created) or the account a governance upgrade of the TSS client rotated to
 	Proof    string // TSS-secured receive/ack only: "" (harness default) | "tss-address" (the public TSS address written into the proof field) | "empty"
 }
 
@@ -108,7 +109,7 @@ func (c p1case) String() string {
 	for _, n := range []string{"r1", "r2", "u2"} {
 		rs = append(rs, fmt.Sprintf("%s:%v", n, []string(c.Registry[n])))
 	}
-	return fmt.Sprintf("registry{%s}%s signer=%s msg=%s(%s%s) tssClientForB=%v", strings.Join(rs, " "), c.Rereg, c.Signer, c.Kind, c.Chain, map[string]string{"": "", "reverts": ", callback reverts", "unknown-destination": ", unknown destination"}[c.Packet]+map[string]string{"": "", "tss-address": ", proof field = TSS address", "empty": ", empty proof field"}[c.Proof], c.TSS)
+	return fmt.Sprintf("registry{%s}%s signer=%s msg=%s(%s%s) tssClientForB=%v", strings.Join(rs, " "), c.Rereg, c.Signer, c.Kind, c.Chain, map[string]string{"": "", "reverts": ", callback reverts", "unknown-destination": ", unknown destination"}[c.Packet]+map[string]string{"": "", "tss-address": ", proof field = TSS address", "empty": ", empty proof field"}[c.Proof], fmt.Sprintf("%v(tss account %s)", c.TSS, c.TSSAcct))
 }
 
 func register(c *world.Chain, ctx sdk.Context, relayer string, chains regEntry) {
@@ -160,10 +161,34 @@ func Part1(r *ev.Run, tier string) (evals, nontrivial int64) {
 				regs = append(regs, regCase{reg: map[string]regEntry{"r1": second, "r2": {"B", "C"}, "u2": {"B"}}, first: map[string]regEntry{"r1": first}, note: fmt.Sprintf(" (r1 re-registered: %v -> %v)", []string(first), []string(second))})
 			}
 		}
-		for _, rc := range regs {
+		type regRot struct {
+			regCase
+			rot string
+		}
+		var cases []regRot
+		for i, rc := range regs {
+			cases = append(cases, regRot{rc, "u2"})
+			// the TSS client upgraded by governance to another TSS account (quick: every fourth registry)
+			if tss && (tier == "thorough" || i%4 == 1) {
+				cases = append(cases, regRot{rc, "r2"})
+			}
+		}
+		for _, rcr := range cases {
+			rc, tssAcct := rcr.regCase, rcr.rot
 			// one fork per registry; messages are delivered on forks of that fork
 			w := base.Clone().(*relay.Sys)
 			a := w.World().Chains[relay.A]
+			if tssAcct != "u2" {
+				w.World().Do(a, func(ctx sdk.Context) {
+					p, err := clienttypes.NewUpgradeClientProposal("t", "d", long["B"], &tsstypes.ClientState{TssAddress: a.Accounts[tssAcct].Acc.String(), Pubkey: []byte{7}, PartPubkeys: [][]byte{{8}}, Threshold: 1}, &tsstypes.ConsensusState{})
+					if err != nil {
+						panic(err)
+					}
+					if err := xibcclient.NewClientProposalHandler(a.App.XIBCKeeper.ClientKeeper)(ctx, p); err != nil {
+						panic(err)
+					}
+				})
+			}
 			w.World().Do(a, func(ctx sdk.Context) {
 				// wipe the fixture's registrations by overwriting: fixture registered r1,r2 for B and C
 				for _, n := range relayers {
@@ -197,7 +222,7 @@ func Part1(r *ev.Run, tier string) (evals, nontrivial int64) {
 						}
 						for _, pk := range pkts {
 							for _, pf := range proofs {
-								c := p1case{Registry: rc.reg, Rereg: rc.note, Signer: signer, Kind: kind, Chain: ch, TSS: tss, Packet: pk, Proof: pf}
+								c := p1case{Registry: rc.reg, Rereg: rc.note, Signer: signer, Kind: kind, Chain: ch, TSS: tss, Packet: pk, Proof: pf, TSSAcct: tssAcct}
 								evals++
 								if one(r, w, c) {
 									nontrivial++
@@ -227,7 +252,7 @@ func one(r *ev.Run, w0 *relay.Sys, c p1case) bool {
 	switch c.Kind {
 	case "upd":
 		if tssHere {
-			hdr := &tsstypes.Header{TssAddress: a.Accounts["u2"].Acc.String(), Pubkey: []byte{3}, PartPubkeys: [][]byte{{4}}, Threshold: 1}
+			hdr := &tsstypes.Header{TssAddress: a.Accounts[c.TSSAcct].Acc.String(), Pubkey: []byte{3}, PartPubkeys: [][]byte{{4}}, Threshold: 1}
 			m, err := clienttypes.NewMsgUpdateClient(cp.Name, hdr, signer.Acc)
 			if err != nil {
 				panic(err)
@@ -253,7 +278,7 @@ func one(r *ev.Run, w0 *relay.Sys, c p1case) bool {
 		msg = m
 	}
 	if tssHere && c.Proof != "" {
-		pf := []byte(a.Accounts["u2"].Acc.String())
+		pf := []byte(a.Accounts[c.TSSAcct].Acc.String())
 		if c.Proof == "empty" {
 			pf = nil
 		}
@@ -270,7 +295,7 @@ func one(r *ev.Run, w0 *relay.Sys, c p1case) bool {
 	if c.Kind != "ack" && !reg.has(c.Chain) {
 		authorised, why = false, "signer is not registered as relayer for "+c.Chain
 	}
-	if tssHere && c.Signer != "u2" {
+	if tssHere && c.Signer != c.TSSAcct {
 		authorised, why = false, "counterparty is TSS-secured and the signer is not the configured TSS account"
 	}
 	pre := relay.DumpStores(a)
